@@ -7,6 +7,7 @@ From Arsenal Require Import Util Bits Gran Linear LinearInv LinearAlloc.
 Import ListNotations.
 Open Scope Z_scope.
 Ltac Zify.zify_post_hook ::= Z.div_mod_to_equations.
+Ltac splits := repeat match goal with |- _ /\ _ => split end.
 
 (* ------------------------------------------------------------------ the trimming loops in closed form *)
 
@@ -189,4 +190,332 @@ Proof.
   - reflexivity.
   - cbn [lives filter app] in *. rewrite app_nil_r, lives_drop_free. assumption.
   - assumption.
+Qed.
+
+(* ------------------------------------------------------------------ cleanupAfterFree *)
+
+Lemma trim_tail_eq0 v : trim_tail v (count_free v) = Some (strip_free v, count_free (strip_free v)).
+Proof. exact (trim_tail_eq [] v). Qed.
+
+(* same configuration and same free-byte counter *)
+Definition same_cfg (l l' : linear) : Prop :=
+  l_size l' = l_size l /\ l_gran l' = l_gran l /\ l_h l' = l_h l.
+
+Lemma same_cfg_refl l : same_cfg l l.
+Proof. unfold same_cfg. auto. Qed.
+
+Lemma same_cfg_trans a b c : same_cfg a b -> same_cfg b c -> same_cfg a c.
+Proof. unfold same_cfg. intros (?&?&?) (?&?&?). repeat split; congruence. Qed.
+
+Lemma compact_first_spec l pre win :
+  first l = pre ++ win -> zlen pre = l_null_begin l -> l_null_middle l = count_free win ->
+  exists l2 pre2 win2,
+    compact_first l = Some l2 /\ first l2 = pre2 ++ win2 /\ zlen pre2 = l_null_begin l2 /\
+    l_null_middle l2 = count_free win2 /\ second l2 = second l /\ l_null_second l2 = l_null_second l /\
+    l_mode l2 = l_mode l /\ l_sum_free l2 = l_sum_free l /\ same_cfg l l2 /\
+    ((pre2 = pre /\ win2 = win) \/ (pre2 = [] /\ win2 = lives win)).
+Proof.
+  intros Hf Hn Hnm. unfold compact_first. destruct (should_compact l).
+  - pose proof (count_free_len win) as Hlen.
+    assert (Hnn : zlen (first l) - l_null_begin l - l_null_middle l = zlen (lives win)).
+    { rewrite Hf, zlen_app, <- Hn, Hnm. lia. }
+    rewrite Hnn. pose proof (zlen_nonneg (lives win)).
+    destruct (zlen (lives win) <? 0) eqn:E; [lia|].
+    rewrite Hf, <- Hn, suffix_from_app. unfold zlen. rewrite Nat2Z.id, compact_loop_spec.
+    eexists _, [], (lives win). split; [reflexivity|]. lsimp.
+    rewrite count_free_lives. unfold same_cfg. lsimp. repeat split; try reflexivity. right. auto.
+  - exists l, pre, win. repeat split; auto.
+Qed.
+
+Lemma L_of_T pre win sv m :
+  T win sv -> (sv = [] -> m = MEmpty) -> win <> [] -> L pre win sv m.
+Proof.
+  intros [H1 H2 H3] Hsv Hwin. constructor; auto. intros E. congruence.
+Qed.
+
+Lemma finish_spec l pre win :
+  first l = pre ++ win -> zlen pre = l_null_begin l ->
+  W pre win (second l) (l_mode l) (l_sum_free l) (l_null_middle l) (l_null_second l) (l_size l) (l_gran l) ->
+  T win (second l) ->
+  exists l', first_became_empty (if zlen (second l) =? 0 then with_mode l MEmpty else l) = Some l' /\
+             LInv l' /\ live l' = lives win ++ lives (second l) /\ same_cfg l l' /\ l_sum_free l' = l_sum_free l.
+Proof.
+  intros Hf Hn HW HT.
+  (* the mode fix-up *)
+  set (l3 := if zlen (second l) =? 0 then with_mode l MEmpty else l).
+  assert (H3 : first l3 = pre ++ win /\ l_null_begin l3 = zlen pre /\ second l3 = second l /\
+               l_sum_free l3 = l_sum_free l /\ same_cfg l l3 /\ l_null_middle l3 = l_null_middle l /\
+               l_null_second l3 = l_null_second l /\
+               (second l = [] -> l_mode l3 = MEmpty) /\
+               W pre win (second l) (l_mode l3) (l_sum_free l) (l_null_middle l) (l_null_second l) (l_size l) (l_gran l)).
+  { unfold l3. destruct (zlen (second l) =? 0) eqn:Hz.
+    - apply Z.eqb_eq, zlen_zero in Hz. unfold same_cfg. lsimp. splits; auto.
+      rewrite Hz in *. eapply W_mode_empty; eauto.
+    - unfold same_cfg. splits; auto. intros E. rewrite E in Hz. discriminate. }
+  clearbody l3. destruct H3 as (Hf3 & Hn3 & Hs3 & Hsf3 & Hcfg3 & Hnm3 & Hns3 & Hsv3 & HW3).
+  unfold first_became_empty. rewrite Hf3, Hn3, zlen_app.
+  destruct (zlen pre + zlen win - zlen pre =? 0) eqn:Hwe.
+  - (* the live window is empty: the first vector is cleared *)
+    assert (Hwin : win = []) by (apply zlen_zero; lia). subst win.
+    pose proof (W_clear_first _ _ _ _ _ _ _ _ HW3) as HW4.
+    unfold swap_if_ring. lsimp. rewrite Hs3.
+    destruct ((zlen (second l) >? 0) && mode_eqb (l_mode l3) MRing) eqn:Hswap.
+    + (* ring buffer: the second vector becomes the first *)
+      apply andb_true_iff in Hswap. destruct Hswap as (Hnz & Hring).
+      assert (Hmr : l_mode l3 = MRing) by (destruct (l_mode l3); try discriminate; reflexivity).
+      rewrite Hmr in HW4.
+      pose proof (absorb_eq [] (second l) (l_null_second l3)) as Hab. cbn [app] in Hab.
+      rewrite zlen_nil in Hab. rewrite Hab. clear Hab.
+      eexists. split; [reflexivity|].
+      pose proof (W_swap _ _ _ _ _ _ HW4) as HW5.
+      assert (Hdne : drop_free (second l) <> []).
+      { intros E. pose proof (take_drop_free (second l)) as Etd. rewrite E, app_nil_r in Etd.
+        destruct (list_snoc_cases (second l)) as [E0|(v & s & Es)]; [rewrite E0 in Hnz; discriminate|].
+        pose proof (t_lasts _ _ HT _ _ Es) as Hl.
+        pose proof (take_free_all (second l)) as Hall. rewrite <- Etd, Es in Hall.
+        apply Forall_app in Hall. destruct Hall as (_ & Hall). apply Forall_cons_iff in Hall. cbn in Hall.
+        destruct Hall as (Hall & _). congruence. }
+      split; [|split; [|split]].
+      * apply (LInv_intro _ (take_free (second l)) (drop_free (second l))); lsimp.
+        -- rewrite Hs3. apply take_drop_free.
+        -- lia.
+        -- rewrite Hns3, Hsf3. destruct Hcfg3 as (-> & -> & _). exact HW5.
+        -- constructor; try congruence; try discriminate.
+           ++ apply drop_free_head.
+           ++ intros v s E. eapply (t_lasts _ _ HT (take_free (second l) ++ v)).
+              rewrite <- app_assoc, <- E. apply take_drop_free.
+           ++ intros v s E. destruct v; discriminate.
+      * rewrite (live_of_split _ (take_free (second l)) (drop_free (second l))); lsimp.
+        -- cbn [app lives filter]. rewrite app_nil_r, lives_drop_free. reflexivity.
+        -- rewrite Hs3. apply take_drop_free.
+        -- lia.
+      * unfold same_cfg in *. lsimp. exact Hcfg3.
+      * lsimp. exact Hsf3.
+    + eexists. split; [reflexivity|].
+      split; [|split; [|split]].
+      * apply (LInv_intro _ [] []); lsimp; try reflexivity.
+        -- rewrite Hs3, Hsf3, Hns3. destruct Hcfg3 as (-> & -> & _).
+           replace (l_null_middle l3) with 0; [exact HW4|].
+           rewrite Hnm3. destruct HW3. rewrite w_nm. reflexivity.
+        -- rewrite Hs3. constructor; try congruence; try discriminate.
+           ++ auto.
+           ++ intros v s E. destruct v; discriminate.
+           ++ apply (t_lasts _ _ HT).
+           ++ intros Hmr _. rewrite Hmr in Hswap. cbn in Hswap. rewrite andb_true_r in Hswap.
+              destruct (zlen (second l) >? 0) eqn:E; [discriminate|].
+              assert (second l = []) by (apply zlen_zero; pose proof (zlen_nonneg (second l)); lia).
+              apply Hsv3 in H. congruence.
+      * rewrite (live_of_split _ [] []); lsimp; try reflexivity. rewrite Hs3. reflexivity.
+      * unfold same_cfg in *. lsimp. exact Hcfg3.
+      * lsimp. exact Hsf3.
+  - assert (Hwin : win <> []) by (intros E; rewrite E, zlen_nil in Hwe; lia).
+    exists l3. split; [reflexivity|]. split; [|split; [|split]]; auto.
+    + apply (LInv_intro _ pre win); auto.
+      * rewrite Hs3, Hsf3, Hnm3, Hns3. destruct Hcfg3 as (-> & -> & _). exact HW3.
+      * rewrite Hs3. apply L_of_T; auto.
+    + rewrite (live_of_split _ pre win); auto. rewrite Hs3. reflexivity.
+Qed.
+
+Lemma allocation_count_live l : WInv l -> allocation_count l = zlen (live l).
+Proof.
+  intros HI. destruct (WInv_elim _ HI) as (Hf & Hn & HW). destruct HW.
+  unfold allocation_count, live. rewrite zlen_app. rewrite Hf at 1. rewrite zlen_app, <- Hn, w_nm, w_ns.
+  pose proof (count_free_len (window l)). pose proof (count_free_len (second l)). lia.
+Qed.
+
+Theorem cleanup_spec l :
+  WInv l ->
+  exists l', cleanup_after_free l = Some l' /\ LInv l' /\ live l' = live l /\ same_cfg l l' /\
+             l_sum_free l' = l_sum_free l.
+Proof.
+  intros HI. pose proof (allocation_count_live _ HI) as Hac.
+  destruct (WInv_elim _ HI) as (Hf & Hn & HW).
+  unfold cleanup_after_free, is_empty. rewrite Hac.
+  destruct (zlen (live l) =? 0) eqn:Hemp.
+  - (* everything freed *)
+    assert (Hl : live l = []) by (apply zlen_zero; lia).
+    eexists. split; [reflexivity|]. split; [|split; [|split]].
+    + apply (LInv_intro _ [] []); lsimp; try reflexivity.
+      * pose proof (W_size_nonneg _ _ _ _ _ _ _ _ _ HW). destruct HW.
+        unfold live in Hl. rewrite Hl in w_sum.
+        constructor; try reflexivity; try assumption; try (constructor; fail); try discriminate.
+        -- split; cbn; [exact I|lia].
+        -- split; cbn; [exact I|lia].
+      * constructor; try congruence; try discriminate.
+        -- intros v s E. destruct v; discriminate.
+        -- intros v s E. destruct v; discriminate.
+    + rewrite (live_of_split _ [] []); lsimp; try reflexivity. rewrite Hl. reflexivity.
+    + unfold same_cfg. lsimp. auto.
+    + lsimp. reflexivity.
+  - (* the general case *)
+    remember (prefix l) as pre eqn:Epre. remember (window l) as win eqn:Ewin.
+    pose proof (w_nm _ _ _ _ _ _ _ _ _ HW) as Hnm. pose proof (w_ns _ _ _ _ _ _ _ _ _ HW) as Hns.
+    pose proof (count_free_len win) as Hcl.
+    destruct (l_null_begin l + l_null_middle l >? zlen (first l)) eqn:Hp.
+    { rewrite Hf, zlen_app in Hp. pose proof (zlen_nonneg (lives win)). lia. }
+    rewrite Hf, <- Hn, absorb_eq.
+    replace (pre ++ win) with ((pre ++ take_free win) ++ drop_free win)
+      by (rewrite <- app_assoc, <- take_drop_free; reflexivity).
+    replace (l_null_middle l - zlen (take_free win)) with (count_free (drop_free win))
+      by (rewrite Hnm, (count_free_take_drop win); lia).
+    rewrite trim_tail_eq, Hns, trim_tail_eq0, trim_front_eq.
+    set (pre1 := pre ++ take_free win). set (win1 := strip_free (drop_free win)).
+    set (sv1 := drop_free (strip_free (second l))).
+    set (l1 := with_nulls _ _ _ _).
+    pose proof (W_trim _ _ _ _ _ _ _ _ _ HW) as HW1. fold pre1 win1 sv1 in HW1.
+    pose proof (T_trim win (second l)) as HT1. fold win1 sv1 in HT1.
+    assert (Hf1 : first l1 = pre1 ++ win1) by (unfold l1; lsimp; reflexivity).
+    assert (Hn1 : zlen pre1 = l_null_begin l1) by (unfold l1, pre1; lsimp; rewrite zlen_app; reflexivity).
+    assert (Hnm1 : l_null_middle l1 = count_free win1) by (unfold l1; lsimp; reflexivity).
+    destruct (compact_first_spec l1 pre1 win1 Hf1 Hn1 Hnm1)
+      as (l2 & pre2 & win2 & -> & Hf2 & Hn2 & Hnm2 & Hs2 & Hns2 & Hm2 & Hsf2 & Hcfg2 & Hcase).
+    assert (Hs1 : second l1 = sv1) by (unfold l1; lsimp; reflexivity).
+    assert (HW2 : W pre2 win2 (second l2) (l_mode l2) (l_sum_free l2) (l_null_middle l2) (l_null_second l2)
+                    (l_size l2) (l_gran l2) /\ T win2 (second l2) /\ lives win2 = lives win1).
+    { rewrite Hs2, Hs1, Hm2, Hsf2, Hnm2, Hns2. destruct Hcfg2 as (-> & -> & _).
+      unfold l1; lsimp. destruct Hcase as [(-> & ->)|(-> & ->)].
+      - auto.
+      - split; [|split; [apply T_compact; exact HT1|apply lives_idem]].
+        rewrite count_free_lives. eapply W_compact; eauto. }
+    destruct HW2 as (HW2 & HT2 & Hlv2).
+    destruct (finish_spec l2 pre2 win2 Hf2 Hn2 HW2 HT2) as (l' & -> & HI' & Hlive' & Hcfg' & Hsf').
+    exists l'. split; [reflexivity|]. split; [exact HI'|]. split; [|split].
+    + rewrite Hlive', Hlv2, Hs2, Hs1. unfold win1, sv1, live.
+      rewrite lives_strip_free, !lives_drop_free, lives_strip_free, <- Ewin. reflexivity.
+    + eapply same_cfg_trans; [|exact Hcfg']. eapply same_cfg_trans; [|exact Hcfg2].
+      unfold same_cfg, l1. lsimp. auto.
+    + rewrite Hsf', Hsf2. unfold l1. lsimp. reflexivity.
+Qed.
+
+(* ------------------------------------------------------------------ replacing an item by one with the same geometry *)
+
+Definition same_geo (s s' : sub) : Prop :=
+  s_off s' = s_off s /\ s_size s' = s_size s /\ s_reqsize s' = s_reqsize s /\ s_reqalign s' = s_reqalign s.
+
+Lemma same_geo_refl s : same_geo s s.
+Proof. unfold same_geo. auto. Qed.
+
+Lemma geo_refl v : Forall2 same_geo v v.
+Proof. induction v; constructor; auto using same_geo_refl. Qed.
+
+Lemma geo_mid a s s' b : same_geo s s' -> Forall2 same_geo (a ++ s :: b) (a ++ s' :: b).
+Proof. intros H. apply Forall2_app; [apply geo_refl|]. constructor; [exact H|apply geo_refl]. Qed.
+
+Lemma geo_rev v v' : Forall2 same_geo v v' -> Forall2 same_geo (rev v) (rev v').
+Proof.
+  induction 1 as [|x y v v' Hxy _ IH]; cbn; [constructor|].
+  apply Forall2_app; [exact IH|]. constructor; [exact Hxy|constructor].
+Qed.
+
+Lemma geo_order m win win' sv sv' :
+  Forall2 same_geo win win' -> Forall2 same_geo sv sv' ->
+  Forall2 same_geo (order m win sv) (order m win' sv').
+Proof.
+  intros H1 H2. unfold order. destruct m; apply Forall2_app; auto. apply geo_rev. exact H2.
+Qed.
+
+Lemma chain_geo v v' : Forall2 same_geo v v' -> forall lo hi, chain lo v hi -> chain lo v' hi.
+Proof.
+  induction 1 as [|x y v v' (Ho & Hs & _) _ IH]; intros lo hi Hc; [exact Hc|].
+  apply chain_cons in Hc. apply chain_cons. rewrite Ho, Hs. split; [tauto|]. apply IH. tauto.
+Qed.
+
+Lemma item_ok_geo v v' : Forall2 same_geo v v' -> Forall item_ok v -> Forall item_ok v'.
+Proof.
+  induction 1 as [|x y v v' (Ho & Hs & Hrs & Hra) _ IH]; intros HF; [constructor|].
+  apply Forall_cons_iff in HF. destruct HF as (Hx & HF). constructor; [|auto].
+  unfold item_ok in *. rewrite Ho, Hs, Hrs, Hra. exact Hx.
+Qed.
+
+Lemma same_geo_mark s : same_geo s (mark_free s).
+Proof. unfold same_geo. cbn. auto. Qed.
+
+Lemma same_geo_tag t s : same_geo s (set_tag t s).
+Proof. unfold same_geo. cbn. auto. Qed.
+
+(* the weak invariant after items were replaced by items of the same geometry; the counters are
+   recomputed *)
+Lemma W_geo pre win sv m sf nm ns size g win' sv' :
+  W pre win sv m sf nm ns size g ->
+  Forall2 same_geo win win' -> Forall2 same_geo sv sv' ->
+  W pre win' sv' m (size - sum_sizes (lives win' ++ lives sv')) (count_free win') (count_free sv') size g.
+Proof.
+  intros HW Hgw Hgs. destruct HW. constructor; try assumption; try reflexivity.
+  - eapply item_ok_geo; [|exact w_ok1]. apply Forall2_app; [apply geo_refl|exact Hgw].
+  - eapply item_ok_geo; eauto.
+  - eapply chain_geo; [|exact w_first]. apply Forall2_app; [apply geo_refl|exact Hgw].
+  - eapply chain_geo; [|exact w_order]. apply geo_order; assumption.
+  - intros Hm. apply w_mode in Hm. subst sv. inversion Hgs. reflexivity.
+Qed.
+
+(* ------------------------------------------------------------------ Free: the marked states *)
+
+(* l1 is l with the live item x marked as freed / removed, before cleanupAfterFree *)
+Definition marked (l : linear) (x : sub) (l1 : linear) : Prop :=
+  WInv l1 /\ same_cfg l l1 /\ l_sum_free l1 = l_sum_free l + s_size x /\
+  exists a b, live l = a ++ x :: b /\ live l1 = a ++ b.
+
+Lemma is_free_mark s : is_free (mark_free s) = true.
+Proof. reflexivity. Qed.
+
+Lemma lives_mid_live a s b : is_free s = false -> lives (a ++ s :: b) = lives a ++ s :: lives b.
+Proof. intros H. rewrite lives_app, lives_cons_live by assumption. reflexivity. Qed.
+
+Lemma lives_mid_free a s b : is_free s = true -> lives (a ++ s :: b) = lives a ++ lives b.
+Proof. intros H. rewrite lives_app, lives_cons_free by assumption. reflexivity. Qed.
+
+Lemma count_free_mid a s b : count_free (a ++ s :: b) = count_free a + (if is_free s then 1 else 0) + count_free b.
+Proof. rewrite count_free_app, count_free_cons. lia. Qed.
+
+(* first[nullBegin] is marked and absorbed into the prefix *)
+Lemma mark_first_W pre x r sv m sf nm ns size g :
+  W pre (x :: r) sv m sf nm ns size g -> is_free x = false ->
+  W (pre ++ [mark_free x]) r sv m (sf + s_size x) nm ns size g.
+Proof.
+  intros HW Hx.
+  pose proof (W_geo _ _ _ _ _ _ _ _ _ (mark_free x :: r) sv HW
+                ltac:(apply (geo_mid [] x (mark_free x) r); apply same_geo_mark) (geo_refl sv)) as HW1.
+  pose proof (W_shrink _ _ _ _ _ _ _ _ _ (pre ++ [mark_free x]) r sv HW1) as HW2.
+  destruct HW. pose proof (count_free_cons x r) as Hc. rewrite Hx in Hc.
+  replace (sf + s_size x) with (size - sum_sizes (lives (mark_free x :: r) ++ lives sv)).
+  2:{ rewrite w_sum, lives_cons_free by reflexivity. rewrite lives_cons_live by assumption. cbn [app sum_sizes]. lia. }
+  replace nm with (count_free r) by lia. rewrite w_ns.
+  apply HW2.
+  - apply Forall_app. split; [assumption|]. constructor; [reflexivity|constructor].
+  - rewrite <- app_assoc. apply sl_refl.
+  - constructor. apply sl_refl.
+  - apply sl_refl.
+  - rewrite lives_cons_free; reflexivity.
+  - reflexivity.
+Qed.
+
+Lemma free_first_item_spec l x :
+  LInv l -> In x (live l) ->
+  free_first_item l (s_off x) = TSkip \/
+  exists l1, free_first_item l (s_off x) = finish_free l1 /\ marked l x l1.
+Proof.
+  intros HI Hx. pose proof HI as (HWI & HL). destruct (WInv_elim _ HWI) as (Hf & Hn & HW).
+  unfold free_first_item. destruct (zlen (first l) >? 0) eqn:Hz; [|left; reflexivity].
+  assert (Hne : first l <> []) by (intros E; rewrite E in Hz; discriminate).
+  destruct (window_facts _ HI Hne) as (w & ws & Hw & Hnth & _ & _ & Hwl & Hnb).
+  rewrite Hnth. destruct (s_off w =? s_off x) eqn:Heq; [|left; reflexivity]. right.
+  (* w and x have the same offset and both are in the address order: they are the same item *)
+  assert (w = x).
+  { apply live_in_order in Hx. destruct Hx as (Hx & _).
+    pose proof (order_pos _ _ _ _ _ _ _ _ _ HW) as Hpo. destruct HW. destruct w_order as (Hc & _).
+    eapply chain_off_inj; eauto; [|lia].
+    unfold order. rewrite Hw. destruct (l_mode l); apply in_or_app; [right|right|left]; left; reflexivity. }
+  subst w. eexists. split; [reflexivity|].
+  rewrite Hw in HW. pose proof (mark_first_W _ _ _ _ _ _ _ _ _ _ HW Hwl) as HW1.
+  unfold marked, same_cfg. lsimp. split; [|split; [auto|split; [reflexivity|]]].
+  - apply (WInv_intro _ (prefix l ++ [mark_free x]) ws); lsimp.
+    + rewrite Hf at 1. rewrite <- Hn, Hw, set_nth_z_mid, <- app_assoc. reflexivity.
+    + rewrite zlen_app, zlen_cons, zlen_nil. lia.
+    + exact HW1.
+  - exists [], (lives ws ++ lives (second l)). unfold live at 1. rewrite Hw, lives_cons_live by assumption.
+    split; [reflexivity|].
+    rewrite (live_of_split _ (prefix l ++ [mark_free x]) ws); lsimp.
+    + reflexivity.
+    + rewrite Hf at 1. rewrite <- Hn, Hw, set_nth_z_mid, <- app_assoc. reflexivity.
+    + rewrite zlen_app, zlen_cons, zlen_nil. lia.
 Qed.
